@@ -1,5 +1,106 @@
-import RTV.Drv.Choice
+import RTV.Lemmas.ChoiceDecA
+import RTV.Lemmas.ChoiceDecB
+/-!
+# C20 — yes/no answers keep their polarity
+
+Theorems about the model `RTV.Choice` (mirrors `ChoiceExtractor.__tokenize / match_value / extract`, `BooleanParser`,
+`ChoiceModel.parse` and `StringUtility.remove_unicode_matches`) in the environment `genEnv` built from the
+regenerated data: the True/False regexes *as rewritten by the working tree's own `remove_unicode_matches`*, the
+tokenizer regex, the `regex` engine's tables, the `emoji` table and `str.lower` / `str.isspace`.
+
+The alternatives are a finite language: `alts b` enumerates it from the regenerated RE (`enumLang`; `\s+` as its
+one-blank instance; the pipeline also runs the three-blank instance).  The statements below quantify over all of it
+× {lower, UPPER, Title} × the contexts of `contexts`; the correspondence runs the same families (and four more
+contexts) on `recognize_boolean`.
+
+History: before /repo commits 863060d4d and a65f410e1 the rewrite destroyed the surrogate-pair / 4-digit escapes
+(`👍`, `✋` unreachable) and the span was taken from the first textual occurrence of the matched text.  Regression
+theorems about the pre-fix functions are kept at the end; the correspondence keeps the probes `👍`, `✋`,
+`nobody said no` (signatures `emoji-unreachable`, `first-occurrence-span`).
+-/
 namespace RTV.C20
-open RTV.Choice RTV.Drv
-theorem placeholder : True := trivial
+open RTV.Choice RTV.Re RTV.Py
+
+/-- C20 (affirmative / negative): every listed alternative, in lower / UPPER / Title case, alone or inside each of the
+contexts, yields exactly one entity — spanning exactly that expression, with its own polarity. -/
+theorem alts_polarity (b : Bool) : ∀ w ∈ alts b, ∀ v ∈ variants w, ∀ c ∈ contexts,
+    recognise genEnv (c.1 ++ v ++ c.2) =
+      some [⟨c.1.length, (c.1.length : Int) + v.length - 1, v, b, true⟩] := by
+  intro w hw v hv c hc
+  have h : polarityOK genEnv b = true := by
+    rw [← fastEnv_eq]; cases b
+    · exact polarity_false_fast
+    · exact polarity_true_fast
+  unfold polarityOK at h
+  have := List.all_eq_true.1 (List.all_eq_true.1 (List.all_eq_true.1 h w hw) v hv) c hc
+  simpa [expected] using this
+
+/-- the enumeration is the resource's list, emoji included (👍 U+1F44D, 👌 U+1F44C; 👎 U+1F44E, ✋ U+270B, 🖐 U+1F590) -/
+theorem alts_listed :
+    alts true = [ofString "true", ofString "yes", ofString "yep", ofString "yup", ofString "yeah", ofString "y",
+      ofString "sure", ofString "ok", ofString "agree", [128077], [128076]] ∧
+    alts false = [ofString "false", ofString "nope", ofString "nop", ofString "no", ofString "not ok",
+      ofString "disagree", [128078], [9995], [128400]] := by decide +kernel
+
+/-- C20 (neutral): texts of the pool — empty, blank, words that merely contain an alternative (`nobody`, `okay`,
+`yesterday`, `notok`), other emoji — yield nothing. -/
+theorem neutral_nothing : ∀ q ∈ neutralPool, recognise genEnv q = some [] := by
+  intro q hq
+  have h : neutralOK genEnv = true := by rw [← fastEnv_eq]; exact neutral_fast
+  simpa using List.all_eq_true.1 h q hq
+
+/-- C20 (both polarities): for every affirmative `t`, negative `f` and separator, in both orders, exactly one entity
+is reported, its text is a listed expression of the polarity it reports, and its span is where that text stands. -/
+theorem both_polarities_one_entity : ∀ t ∈ alts true, ∀ f ∈ alts false, ∀ sp ∈ seps,
+    oneListed (t ++ sp ++ f) (recognise genEnv (t ++ sp ++ f)) = true ∧
+    oneListed (f ++ sp ++ t) (recognise genEnv (f ++ sp ++ t)) = true := by
+  intro t ht f hf sp hsp
+  have h : bothOK genEnv = true := by rw [← fastEnv_eq]; exact both_fast
+  unfold bothOK at h
+  have := List.all_eq_true.1 (List.all_eq_true.1 (List.all_eq_true.1 h t ht) f hf) sp hsp
+  simpa using this
+
+/-- C20 (score): whatever is reported carries the parser's default score `0.0` — inside `[0, 1]` — for every
+environment and every query (`ChoiceParser.parse` reads the score of a freshly built `ChoiceExtractDataResult`). -/
+theorem reported_score_unit_interval (E : Env) (q : Str) (rs : List MR) (h : recognise E q = some rs) :
+    ∀ r ∈ rs, r.scoreZero = true := by
+  unfold recognise at h
+  cases he : extract E q with
+  | none => simp [he] at h
+  | some ers =>
+    simp [he] at h
+    subst h
+    intro r hr
+    simp at hr
+    obtain ⟨e, _, rfl⟩ := hr
+    rfl
+
+/-- NEGATIVE (extractor-internal, never reported): `match_value` itself can leave `[0, 1]`, because
+`StringUtility.index_of` answers `1` for "not found": `match_value(['a'], ['x','x','x'], 0) = 5.8`
+(replayed on the implementation by the correspondence, recorded in the evidence). -/
+theorem match_value_can_exceed_one :
+    matchValue [[97]] [[120], [120], [120]] 0 = some ⟨174, 30⟩ ∧ (174 : Int) > 30 := by decide
+
+/-- the rewrite of the regenerated TrueRegex text: surrogate pairs become the code point they encode -/
+theorem rewrite_true_regex :
+    removeUnicodeMatches RTV.Gen.boolTrueRegexRaw =
+      ofString "\\b(true|yes|yep|yup|yeah|y|sure|ok|agree)\\b|(\\U0001F44D|\\U0001F44C|\\U0001f44c)(\\U0001F3FB|\\U0001F3FC|\\U0001F3FD|\\U0001F3FE|\\U0001F3FF)?" := by
+  decide +kernel
+
+/-! ### regression theorems about the code before the fixes (defect #14) -/
+
+/-- REGRESSION (`emoji-unreachable`, fixed by /repo 863060d4d): the pre-fix rewrite turned `👍` into the
+literal text `uDC4D` — no thumbs-up left in the pattern. -/
+theorem prefix_rewrite_loses_thumbs_up :
+    removeUnicodeMatchesPreFix RTV.Gen.boolTrueRegexRaw =
+      ofString "\\b(true|yes|yep|yup|yeah|y|sure|ok|agree)\\b|(uDC4D|uDC4C|\\U0001f44c)(uDFFB|uDFFC|uDFFD|uDFFE|uDFFF)?" := by
+  decide +kernel
+
+/-- REGRESSION (`first-occurrence-span`, fixed by /repo a65f410e1): with `trimmed_source.index(match)` the entity of
+`nobody said no` was placed on the `no` of `nobody`; with the match's own offset it is at `[12, 13]`. -/
+theorem prefix_first_occurrence_span :
+    recognise genEnvPreFix (ofString "nobody said no") = some [⟨0, 1, ofString "no", false, true⟩] ∧
+    recognise genEnv (ofString "nobody said no") = some [⟨12, 13, ofString "no", false, true⟩] := by
+  rw [← fastEnv_eq, ← fastEnvPreFix_eq]; decide +kernel
+
 end RTV.C20
